@@ -27,7 +27,7 @@ RULE = ('one trash-empty (all modes) or trash-rm per case over trash content wit
         'to something outside; distinct = (command, link kinds purged, depth)')
 ASSUMPTIONS = ['the checks run as root: the permission failures an ordinary user meets (unlink inside a read-only directory: EACCES) are emulated by injected persistent conditions',
                "a trash directory whose files/ or info/ is itself a symlink (foreign damage) is not generated: what 'under files/' means there is debatable"]
-PROBES = ['trash-dir-is-itself-a-symlink', 'tree-deeper-than-the-recursion-limit', 'trash-dir-spelled-through-symlink-dotdot', 'permission-conditions', 'link-payload-purged', 'link-inside-dir-purged', 'dangling-purged', 'through-symlinked-home', 'rm-command', 'empty-command',
+PROBES = ['dot-Trash-is-a-symlink-to-a-sticky-dir', 'trash-dir-is-itself-a-symlink', 'tree-deeper-than-the-recursion-limit', 'trash-dir-spelled-through-symlink-dotdot', 'permission-conditions', 'link-payload-purged', 'link-inside-dir-purged', 'dangling-purged', 'through-symlinked-home', 'rm-command', 'empty-command',
           'mutating-ops-monitored', 'rmtree-used']
 TECHNIQUE = 'deterministic simulation with an in-kernel containment monitor on every mutating op plus full-snapshot frame check'
 LEVEL_TEXT = ('seeded exploration of trash contents; containment is evaluated at the op that would break it (resolved target of each '
@@ -36,7 +36,7 @@ LEVEL_NOTE = 'trusted: vkernel op interposition completeness (seam audit in the 
 
 
 def gen(rng):
-    L = G.make_layout(rng, trash_states=[rng.choice(['absent', 'sticky']) for _ in range(4)],
+    L = G.make_layout(rng, trash_states=[rng.choice(['absent', 'sticky', 'sticky', 'link_sticky']) for _ in range(4)],
                       alt_states=[rng.choice(['absent', 'dir']) for _ in range(4)],
                       xdg=rng.choice(['unset', 'set', 'link', 'link']))
     steps = L['steps']
@@ -61,6 +61,13 @@ def gen(rng):
         ht_ = G.home_trash_of(env)
         steps.append(['d', home + '/store/RealTrash', 0o700])
         steps.append(['l', ht_, home + '/store/RealTrash'])
+    for v_ in L['vols']:
+        if L['trash'][v_]['top'] == 'link_sticky':
+            # $topdir/.Trash is a SYMLINK to a sticky directory that holds a populated $uid directory: not a trash directory of
+            # this user by the spec's rules - nothing below it may be purged
+            t_ = v_ + '/.Trash/%d' % L['uid']
+            G.add_trashed(steps, t_, 'planted', TG.pct('docs/planted'), '2001-01-01T00:00:00', rng.choice(['file', 'dir']), tag='planted')
+            steps.append(['f', t_ + '/files/no-info-for-me', 'x', 0o644])
     locs = [t for t in TG.trash_locations(L2) if t[2]]
     n = rng.choice([1, 2, 3, 5])
     names = []
@@ -264,6 +271,8 @@ def check(sim, case, st):
         st.probes['tree-deeper-than-the-recursion-limit'] += 1
         if r.exc is not None and 'Recursion' in r.exc:
             st.probes['rmtree-gave-up-with-RecursionError'] += 1
+    if any(k.endswith('/.realTrash') for k in snap0):
+        st.probes['dot-Trash-is-a-symlink-to-a-sticky-dir'] += 1
     if any(k.endswith('/store/RealTrash') for k in snap0):
         st.probes['trash-dir-is-itself-a-symlink'] += 1
     if any('/stick/../' in a for a in argv):
